@@ -126,7 +126,7 @@ pub fn check(case: &Case, ctx: &mut Ctx) -> R {
 }
 
 pub fn strategy(thorough: bool) -> impl Strategy<Value = Case> {
-    let (max_e, max_ops) = if thorough { (24, 12) } else { (9, 6) };
+    let (max_e, max_ops) = if thorough { (14, 8) } else { (9, 6) };
     (
         mixed_hist_strategy(max_e, max_ops),
         prop_oneof![Just(CacheKind::None), Just(CacheKind::Default)],
@@ -143,7 +143,7 @@ pub fn run(eng: &mut Engine) {
     eng.prop_part(
         "history",
         "generated histories; after every state-changing publish, for every published label: Complete and MostRecent(N) for N in {1,total-1,total,total+1,generated}, verified with the same parameter and compared with the model's newest-first list; non-trivial = a label with >=3 versions queried with N<total and N>total; distinct by history",
-        eng.tier.pick(1000, 15_000),
+        eng.tier.pick(1000, 8_000),
         || strategy(thorough),
         check,
     );
